@@ -7,6 +7,7 @@ TC = "dendropy.calculate.treecompare"
 TREE = "dendropy.datamodel.treemodel._tree.Tree"
 ENC_ATTRS = ("bipartition_encoding", "bipartition_edge_map", "split_bitmask_edge_map", "split_edges")
 FLAG = "is_bipartitions_updated"
+EDGE_ATTRS = ("split_bitmask", "leafset_bitmask", "bipartition")
 PUBLIC = ["symmetric_difference", "unweighted_robinson_foulds_distance", "weighted_robinson_foulds_distance",
           "false_positives_and_negatives", "euclidean_distance", "find_missing_bipartitions", "robinson_foulds_distance"]
 KERNELS = ["false_positives_and_negatives", "find_missing_bipartitions", "_get_length_diffs"]
@@ -51,7 +52,60 @@ def freshness_rule(index, rep, rid, fi, trees=None):
         nreads += total
         if total:
             rep.ob(rid, fn_where(fi), "%s: %d reads of %s's encoding each dominated by %s.encode_bipartitions() when the flag is falsy" % (fi.name, total, T, T), True)
+    # edge-level reads (x.edge.split_bitmask, x.bipartition ...) need SOME subject tree encoded first
+    if trees:
+        def encodes_any(n):
+            for c in node_calls(n):
+                if call_name(c) in ("encode_bipartitions", "update_bipartitions", "encode_splits", "update_splits") and isinstance(c.func, ast.Attribute) and norm(c.func.value) in trees:
+                    return True
+                kw = get_kwarg(c, FLAG)
+                if kw is not None and norm(kw) == FLAG:
+                    return True   # the flag is forwarded: the callee re-encodes when it is falsy
+            return False
+        reach = cfg.reach([cfg.entry], avoid=encodes_any, follow_exc=False, edge_ok=flag_true_edge)
+        total = 0
+        for n in cfg.nodes:
+            hit = False
+            for e in node_exprs(n) + ([n.ast] if n.kind == "forinit" else []):
+                if e is None:
+                    continue
+                for a, base, node in attr_reads(e):
+                    if a in EDGE_ATTRS and "edge" in norm(base) and not norm(base).startswith("kwargs"):
+                        hit = True
+                        total += 1
+                        if n in reach:
+                            rep.check(False, rid, fi.qualname, "stale edge-level read .%s" % a, fn_where(fi, node), "%s: edge-level read .%s with the flag falsy" % (fi.name, a),
+                                      "%s reads `%s.%s` on a path where %s is falsy (the default) and none of %s has been re-encoded: per-edge bipartition data cached before the tree was last modified is used"
+                                      % (fi.qualname, norm(base), a, FLAG, trees))
+        if total:
+            nreads += total
+            rep.ob(rid, fn_where(fi), "%s: %d edge-level bipartition reads each dominated by an encode of %s when the flag is falsy" % (fi.name, total, trees), True)
     return nreads
+
+
+def flagged_subjects(index, fi):
+    """tree-valued names of a function that takes / uses the freshness flag."""
+    subj = set(p for p in fi.all_params if "tree" in p and not p.startswith("is_") and p not in ("trees", "tree_list", "tree_iterator", "tree_factory", "tree_type", "use_tree_weights"))
+    if fi.cls is not None and index.is_subclass(fi.cls, TREE):
+        subj.add("self")
+    for n in walk_no_nested(fi.node):
+        if isinstance(n, ast.For) and isinstance(n.target, ast.Name) and "tree" in n.target.id:
+            subj.add(n.target.id)
+    return sorted(subj)
+
+
+def freshness_everywhere(index, rep, rid, modules):
+    """apply the freshness and forwarding rules to every function of `modules` that mentions the flag."""
+    nf = 0
+    for m in modules:
+        for fi in index.functions_in_module(m):
+            uses = FLAG in fi.all_params or any(isinstance(n, ast.Name) and n.id == FLAG for n in ast.walk(fi.node))
+            if not uses:
+                continue
+            nf += 1
+            freshness_rule(index, rep, rid, fi, flagged_subjects(index, fi))
+            forwarding_rule(index, rep, rid, fi)
+    return nf
 
 
 def forwarding_rule(index, rep, rid, fi):
@@ -160,6 +214,21 @@ def run(index, rep, tier):
                           "%s references treecompare.%s" % (f2.qualname, n.attr),
                           "%s references `treecompare.%s`, which does not exist in dendropy.calculate.treecompare: the call raises AttributeError" % (f2.qualname, n.attr))
     rep.floor("R04.4", "references to treecompare.<name>", 5, nref)
+
+    # ---- R04.6
+    rep.rule("R04.6", "distance kernels never mutate a tree's cached bipartition data: no store/mutator call through a name aliased (without copying) to a tree parameter's encoding or edge maps")
+    nk = 0
+    for f6 in index.functions_in_module(TC, include_methods=False):
+        tp = tree_params(f6)
+        if not tp:
+            continue
+        nk += 1
+        t = tainted_names(f6, tp)
+        bad = [b for b in writes_rooted_at(f6, t, ()) if not (isinstance(b, ast.Call) and b.func.attr in ("encode_bipartitions",))]
+        rep.check(not bad, "R04.6", f6.qualname, "mutates tree-derived data: %s" % (norm(bad[0])[:60] if bad else ""), fn_where(f6, bad[0] if bad else None),
+                  "%s: nothing aliased to %s's cached data is mutated (names derived from the trees: %s)" % (f6.name, tp, sorted(t - set(tp))[:6]),
+                  "%s mutates `%s`, which is (an alias of) cached bipartition data of one of its tree arguments: a distance call empties/changes the tree's own edge map, so later calls - or the same call on (t, t) - give wrong results" % (f6.qualname, norm(bad[0])[:70] if bad else ""))
+    rep.floor("R04.6", "treecompare functions with tree parameters", 8, nk)
 
     # ---- R04.5
     fi = index.function(TC + ".false_positives_and_negatives")
